@@ -47,11 +47,11 @@ def run(chk):
     chk.require(bfs and bfsd, "BFS generators vanished")
     chk.analysed(bfs, bfsd)
     for f, with_dist in ((bfs, False), (bfsd, True)):
-        bfs_rules(chk, f, with_dist)
-    r4_siblings(chk, bfs, bfsd)
-    r5_matcher(chk, conn)
-    r6_adjacency(chk, conn)
-    r7_ring(chk, conn)
+        chk.call(bfs_rules, chk, f, with_dist)
+    chk.call(r4_siblings, chk, bfs, bfsd)
+    chk.call(r5_matcher, chk, conn)
+    chk.call(r6_adjacency, chk, conn)
+    chk.call(r7_ring, chk, conn)
 
 
 def _queue_name(f):
